@@ -327,6 +327,10 @@ func (t *tracer) traceCall(c *ssa.Call, resIdx int, ctx []callCtx, depth int, pr
 
 func (t *tracer) traceInto(c *ssa.Call, g *ssa.Function, resIdx int, ctx []callCtx, depth int, prefix string) {
 	e := t.e
+	if isPtrHelper(g) && len(c.Call.Args) == 1 {
+		t.trace(c.Call.Args[0], ctx, depth+1, prefix)
+		return
+	}
 	if e.fnRole(g) == "" || g.Blocks == nil {
 		t.emit(prefix, "extcall:"+g.String())
 		return
@@ -526,4 +530,38 @@ func transparentArg(e *Engine, g *ssa.Function, c *ssa.Call) (ssa.Value, string)
 func isIntType(t types.Type) bool {
 	b, ok := t.Underlying().(*types.Basic)
 	return ok && b.Info()&types.IsInteger != 0
+}
+
+// isPtrHelper: a value<->pointer convenience function (aws.String, aws.ToString, aws.StringValue, types.ToString, ...):
+// one parameter, one result, one the pointer (or map/slice of pointers) version of the other.
+func isPtrHelper(g *ssa.Function) bool {
+	sig := g.Signature
+	if sig.Params().Len() != 1 || sig.Results().Len() != 1 || sig.Recv() != nil {
+		return false
+	}
+	p, r := sig.Params().At(0).Type(), sig.Results().At(0).Type()
+	deref := func(t types.Type) types.Type {
+		if pt, ok := t.Underlying().(*types.Pointer); ok {
+			return pt.Elem()
+		}
+		return nil
+	}
+	if d := deref(r); d != nil && types.Identical(d, p) {
+		return true
+	}
+	if d := deref(p); d != nil && types.Identical(d, r) {
+		return true
+	}
+	// map[string]*T <-> map[string]T
+	if pm, ok := p.Underlying().(*types.Map); ok {
+		if rm, ok := r.Underlying().(*types.Map); ok {
+			if d := deref(pm.Elem()); d != nil && types.Identical(d, rm.Elem()) {
+				return true
+			}
+			if d := deref(rm.Elem()); d != nil && types.Identical(d, pm.Elem()) {
+				return true
+			}
+		}
+	}
+	return false
 }
